@@ -78,6 +78,12 @@ CLAIMED.update({
                 note="Constants are concrete (the e-graph hashes them); the solver's dimension is the function arguments. 10 programs x 5 rule sets."),
 })
 
+CLAIMED.update({
+    "C22": dict(cat="translation_validation", design="DESIGN.md §4 C22",
+                text="(a) RISC-V canonicalization alone: ~80 snippets of 1-4 riscv ops whose rv32.li constants (full 32 bit) and instruction immediates (full 12 bit, 5-bit shift amounts) are SYMBOLIC - the patterns fork on them - run through the real canonicalize pass; before/after execute on an RV32 reference machine and z3 decides equal results and equal final memory for all constants/immediates/inputs. (b) func/arith programs go through the documented lowering pipelines (also before allocation for i1 results), the riscv_func body executes on the register-file machine with symbolic argument registers and must leave the reference result in a0. (c) functions clobbering each callee-saved s/fs register go through riscv-prologue-epilogue-insertion and execute on a symbolic stack: sp, all s/fs registers and the caller's stack restored.",
+                note="Trusted: z3, vx/rvsem.py (RV32IM + float moves/loads/stores), vx/refprog.py for the source. A canonicalization/lowering that raises a diagnostic is counted as reported failure. Outside: scf lowering, float programs, snitch extensions, assembly text."),
+})
+
 NOT_APPLICABLE = {
     "C05": "custom assembly formats: the quantifier is over ~80 dialects' op definitions/format programs; no data dimension for a solver beyond what C04/C06 cover for leaves (DESIGN §5)",
     "C17": "pass x corpus-module cross product: deciding it means running each pair concretely; no symbolic dimension (DESIGN §5)",
